@@ -44,7 +44,13 @@ func (r *verifRecorder) Write(b []byte) (int, error) {
 	r.body = append(r.body, b...)
 	return len(b), nil
 }
-func (r *verifRecorder) Flush() { r.flushes++ }
+// Flush sends what has been buffered: as in net/http it commits the header (status 200) if none was written yet.
+func (r *verifRecorder) Flush() {
+	if !r.wroteHeader {
+		r.WriteHeader(200)
+	}
+	r.flushes++
+}
 
 type verifRouter struct {
 	route *routers.Route
@@ -144,6 +150,12 @@ func verifC14(maxSteps int) {
 			hBody = append(hBody, st.data...)
 		case 2:
 			set = true
+		case 3:
+			// only the pass-through wrapper offers http.Flusher; a flush commits the header (200) at the client.
+			// The buffering strict wrapper must not: nothing may reach the client before validation.
+			if !strict && !hWrote {
+				hWrote, hStatus = true, 200
+			}
 		}
 	}
 	if !hWrote {
